@@ -532,14 +532,26 @@ def calc_variants(name, cls, emin=-1.0, emax=1.5):
     return ext
 
 
-def natural_scale(calc, d):
-    """sum over band pairs of |factor_omega| |factor_Efermi| |matrix element| through the real __call__ loop:
-    the scale on which a component that vanishes by symmetry is rounding noise"""
+def natural_scale(calc, d, d_alphabet):
+    """(sum over band pairs of |factor_omega| |factor_Efermi| at this k, through the real __call__ loop)
+       x (largest single matrix element |trace_ln(ik,[m],[n])| over the k alphabet of the model).
+    This is the scale on which a component that vanishes by symmetry is rounding noise: the energy factors and the
+    matrix elements are separated because either of them may be tiny / vanish by symmetry at the k point under test
+    (band velocities at a TRIM, sums over Kramers partners, Gaussian weights far from a transition)."""
     import copy
-    c2 = copy.copy(calc)
     F = calc.Formula
+    kwf = dict(calc.kwargs_formula)
+    M = 0.0
+    for dd in d_alphabet:
+        f = F(data_K=dd, **kwf)
+        nb = dd.num_wann
+        for ik in range(dd.nk):
+            for m in range(nb):
+                for n in range(nb):
+                    M = max(M, float(np.abs(f.trace_ln(ik, np.array([m]), np.array([n]))).max()))
+    c2 = copy.copy(calc)
 
-    class AbsFormula:
+    class OnesFormula:
         def __init__(self, data_K, **kw):
             self.f = F(data_K, **kw)
             self.ndim = self.f.ndim
@@ -547,13 +559,13 @@ def natural_scale(calc, d):
             self.transformInv = self.f.transformInv
 
         def trace_ln(self, ik, a, b):
-            # element level: a sum over the partners of a degenerate group may itself vanish by symmetry (PT)
-            return sum(np.abs(self.f.trace_ln(ik, np.array([m]), np.array([n]))) for m in a for n in b)
+            return np.ones((3,) * self.ndim) * len(a) * len(b)
     fo, fe = calc.factor_omega, calc.factor_Efermi
-    c2.Formula = AbsFormula
+    c2.Formula = OnesFormula
     c2.factor_omega = lambda E1, E2: np.abs(fo(E1, E2))
     c2.factor_Efermi = lambda E1, E2: np.abs(fe(E1, E2))
-    return float(np.abs(c2(d).data).max())
+    Fk = float(np.abs(c2(d).data).max())
+    return Fk * M
 
 
 def run_dyncalc(case, system, meta, groups, nb, k):
@@ -594,12 +606,10 @@ def run_dyncalc(case, system, meta, groups, nb, k):
                 break
             exp = res[0].transform(symop).data          # the real declared pipeline
             got = res[1].data
-            # a factor inside the formula may itself vanish by symmetry at this k (band velocities at a TRIM ...):
-            # the scale is taken over the whole k alphabet of the model
-            skey = ("scale", case["model"], name, label)
+            skey = ("scale", case["model"], name, label, case["k"])
             if skey not in _CACHE:
-                _CACHE[skey] = max(natural_scale(calc, dcls(system, grid=grid, k_list=np.array([np.array(kx, dtype=float)])))
-                                   for kx in K_ALPHABET.values())
+                alphabet = [dcls(system, grid=grid, k_list=np.array([np.array(kx, dtype=float)])) for kx in K_ALPHABET.values()]
+                _CACHE[skey] = natural_scale(calc, d1, alphabet)
             scale = max(1e-300, _CACHE[skey])
             err = float(np.abs(got - exp).max()) / scale
             disc = float(np.abs(res[0].data).max()) > 1e-4 * scale
